@@ -364,6 +364,16 @@ func (e *ReverseTranslateError) Unwrap() error {
 
 // ReverseTranslate calls each Mangler's Unmangle method in reverse order.
 func (t *Transformer) ReverseTranslate(v reflect.Value) (reflect.Value, error) {
+	// Sources are free to hand back a pointer to the (mangled) struct, just
+	// as they may for an unmangled one.
+	if v.Kind() == reflect.Ptr && !v.IsNil() {
+		v = v.Elem()
+	}
+	if v.Kind() != reflect.Struct {
+		return reflect.Value{}, fmt.Errorf("cannot reverse-translate a value of kind %s; expected a struct",
+			v.Kind())
+	}
+
 	// iterate through manglers in reverse order passing the value of the struct
 	// field paired with its reflect.StructField as a FieldValueTuple
 
